@@ -123,6 +123,17 @@ class World:
                           "parent_nid": before["nid"] if before else None, "tag_nid": before["nid"] if before else None,
                           "sender_admin": (str(sender) in before["admins"].split(",")) if before else None,
                           "line": line}
+        t = line.split()
+        if t[0] == "leave":
+            self.events[n]["sub"] = "leave"                 # a member's own request to leave (Remove of its own leaf)
+        elif t[0] == "advprop" and t[2] == "remove":
+            self.events[n].update({"sub": "leave"} if int(t[3]) == sender else {"sub": "xremove", "target": int(t[3])})
+        elif t[0] == "advprop" and t[2] == "add":
+            self.events[n].update({"sub": "xadd", "target": self.kp_owner[int(t[3])]})
+        elif t[0] == "advprop":
+            self.events[n]["sub"] = t[2]
+        elif t[0] == "advupdate":
+            self.events[n]["sub"] = "update"
         return n
     def republish(self, line):
         """`rewrap n ts` / `retag n j`: an observer publishes the same ciphertext under a new wrapper (fresh ephemeral key;
@@ -518,7 +529,8 @@ def oracle_world(w):
     SHARED = {"rollback-before-authorisation": ["C01", "C05", "C06", "C02"], "refused-after-rollback": ["C06", "C01"],
               "hydrated-timestamp-zero": ["C01", "C11"], "handshake-before-predecessor-blocked": ["C01", "C02"],
               "record-not-synced": ["C08", "C06"], "rewrapped-commit-rollback": ["C06", "C01", "C07", "C02"],
-              "retagged-commit-rollback": ["C06", "C01", "C02"], "h-rotation-in-flight": ["C02", "C01"]}
+              "retagged-commit-rollback": ["C06", "C01", "C02"], "h-rotation-in-flight": ["C02", "C01"],
+              "autocommit-failed-proposal-stored": ["C06", "C05"], "evicted-leaf-reused-undetected": ["C06", "C05"]}
     def fail(prop, sig, step, what):
         fails.append({"kind": "oracle", "prop": prop, "props": sorted(set([prop] + SHARED.get(sig, []))), "signature": sig,
                       "what": f"world {w.id} step {step}: {what}", "replay_body": w.text(step, what)})
@@ -547,8 +559,45 @@ def oracle_world(w):
             return
         parent = token_data[ev["parent_token"]][0]
         changed = [n for n, x, y in zip(GD, parent, gdata(f)) if x != y]
+        orig = w.events.get(root_of(w, n_ev), ev)
+        line = (orig.get("line") or "").split()
         if changed and str(ev["sender"]) not in parent[1].split(","):
-            fail("C05", "nonadmin-commit-accepted", i, f"`{cmd}`: c{c} applied commit {n_ev} by c{ev['sender']}, who is not an admin in the state it applies to (admins [{parent[1]}]), and {changed} changed: {parent} -> {gdata(f)}")
+            sig = "nonadmin-commit-accepted"
+            if c == ev["sender"] and line[:1] == ["selfupdate"] and changed == ["members"] and set(gdata(f)[0].split(",")) < set(parent[0].split(",")):
+                # the committer itself merges (merge_pending_commit / its echo) its own `self_update`, which swept queued Remove
+                # proposals out of its store: every OTHER client refuses that commit (CommitFromNonAdmin)
+                sig = "nonadmin-selfupdate-sweeps-proposal"
+            fail("C05", sig, i, f"`{cmd}`: c{c} applied commit {n_ev} by c{ev['sender']}, who is not an admin in the state it applies to (admins [{parent[1]}]), and {changed} changed: {parent} -> {gdata(f)}")
+            return
+        # "an admin's own operation changes exactly what it names … the only automatic case being an admin committing a member's
+        # own request to leave": the roster change of the applied commit against what its operation named
+        named = None
+        if orig.get("sub") == "auto":
+            trig = w.events.get(orig.get("trigger"), {})
+            named = (set(), {str(trig.get("sender"))})
+        elif line[:1] == ["add"]:
+            named = ({str(w.kp_owner[int(k)]) for k in line[2].split(",")}, set())
+        elif line[:1] == ["remove"]:
+            named = (set(), set(line[2].split(",")))
+        elif line[:1] in (["data"], ["selfupdate"]):
+            named = (set(), set())
+        if named is None:
+            return
+        mb, ma = {x for x in parent[0].split(",") if x}, {x for x in gdata(f)[0].split(",") if x}
+        same_state = [e for e in w.events.values() if e.get("parent_token") == ev["parent_token"]]
+        asked = {str(e["sender"]) for e in same_state if e.get("sub") == "leave"}       # members' OWN requests: the allowed exception
+        extra_rm = (mb - ma) - named[1] - asked
+        extra_add = (ma - mb) - named[0]
+        if extra_rm or extra_add:
+            xrm = {str(e["target"]) for e in same_state if e.get("sub") == "xremove"}
+            xadd = {str(e["target"]) for e in same_state if e.get("sub") == "xadd"}
+            if extra_rm <= xrm and extra_add <= xadd:
+                sig = "autocommit-sweeps-foreign-proposal" if orig.get("sub") == "auto" else "proposal-sweep"
+                how = "proposed by another member with a stand-alone Remove / Add proposal that the committer's store held"
+            else:
+                sig, how = "admin-op-not-exact", "that nobody proposed"
+            what_op = "the automatic commit of a leave" if orig.get("sub") == "auto" else f"`{' '.join(line)}`"
+            fail("C05", sig, i, f"`{cmd}`: c{c} applied commit {n_ev} ({what_op} by c{ev['sender']}): beyond what the operation names, removed {sorted(extra_rm)} added {sorted(extra_add)} — {how}: [{parent[0]}] -> [{gdata(f)[0]}]")
     # ---- per-step predicates (C06 refuse-frame, C07 redelivery, C08 sync) ----
     seen_effect = {}     # (client, event) -> True once a delivery of it was handled with effect
     prev_fp = {}
@@ -561,11 +610,12 @@ def oracle_world(w):
             fail("C06", f"panic:{t[0]}", i, "the call panicked"); continue
         f = parse_fp(fp)
         c = int(t[1]) if len(t) > 1 and t[1].isdigit() and t[0] not in ("rewrap", "retag") else None
-        if f is not None and not f["sync"] and f["state"] == "a":
+        torn = f is not None and c is not None and f["state"] == "a" and f["token"] >= 0 and str(c) not in f["members"].split(",")
+        if f is not None and not f["sync"] and f["state"] == "a" and not torn:
             fail("C08", "record-not-synced", i, f"stored record (epoch / name / description / admins / relays / nostr group id) differs from the MLS state after `{cmd}`")
         if c is not None and f is not None and prev_fp.get(c) is not None:
             b4 = prev_fp[c]
-            if b4["token"] == f["token"] and b4["token"] >= 0 and gdata(b4) != gdata(f) and b4["state"] == "a" and f["state"] == "a":
+            if b4["token"] == f["token"] and b4["token"] >= 0 and gdata(b4) != gdata(f) and b4["state"] == "a" and f["state"] == "a" and not torn:
                 # C05: roster / admins / data change only by applying a commit (the MLS state did not move here)
                 fail("C05", "data-changed-without-commit", i, f"`{cmd}` changed {[n for n, x, y in zip(GD, gdata(b4), gdata(f)) if x != y]} while the MLS state stayed T{f['token']}")
             if t[0] == "merge" and res == "ok" and b4["token"] != f["token"]:
@@ -589,6 +639,9 @@ def oracle_world(w):
                     fail("C08", "routing-not-by-current-id", i, f"`{cmd}`: event tagged I{evr['tag_nid']} at a client holding I{before['nid']} returned {r0}")
                 if r0 == "err:GroupNotFound" and not routed and (c, int(t[2])) not in gnf_first:
                     gnf_first[(c, int(t[2]))] = i
+            if before is not None and f is not None and evr.get("kind") == "proposal" and before["state"] == "a" and \
+                    (before["token"] != f["token"] or gdata(before) != gdata(f) or before["epoch"] != f["epoch"]):
+                fail("C05", "proposal-took-effect", i, f"`{cmd}` (a {evr.get('sub') or 'proposal'} proposal, answered {r0}) changed the MLS state / roster / group data: {proj(before)[:9]} -> {proj(f)[:9]}")
             if before is not None and f is not None and evr.get("kind") == "commit":
                 n_ev0 = int(t[2])
                 if evr.get("rewrap_of") is not None or any(x.get("rewrap_of") == n_ev0 for x in w.events.values()):
@@ -602,6 +655,18 @@ def oracle_world(w):
                 if is_refusal(r0) and proj(before) != proj(f):
                     ev = w.events.get(int(t[2]), {})
                     sig = "refused-with-effect"
+                    store_only = lambda g: tuple(x for k, x in enumerate(proj(g)) if k not in (9, 10, 12))     # all but pending adds / removes / store size
+                    if (r0 == "unprocessable" and ev.get("sub") == "leave" and str(c) in before["admins"].split(",") and store_only(before) == store_only(f)
+                            and (f.get("queued") or 0) == (before.get("queued") or 0) + 1
+                            and (before.get("pendc") == 1 or str(c) in before["pr"].split(","))):
+                        # `auto_commit_proposal` stored the leave and then could not build the commit: a commit of the receiver's own was
+                        # pending, or a queued Remove names the receiver itself
+                        sig = "autocommit-failed-proposal-stored"
+                    elif (r0 == "unprocessable" and ev.get("kind") == "commit" and before["token"] == f["token"] and f["state"] == "a"
+                            and before["members"] != f["members"] and str(c) not in f["members"].split(",")):
+                        # the commit removed the receiver AND added somebody who took over its leaf: `own_leaf()` still answers, the
+                        # eviction is not noticed, the call fails later (`exporter_secret`) with the public tree already replaced
+                        sig = "evicted-leaf-reused-undetected"
                     if before["epoch"] > f["epoch"]:
                         sig = "rollback-before-authorisation" if (r0.startswith("err:CommitFromNonAdmin") or ev.get("adv")) else "refused-after-rollback"
                         n_ev = int(t[2])
@@ -987,8 +1052,8 @@ def correspondence(worlds):
     inputs = []
     text = ""
     for w in worlds:
-        if getattr(w, "crashed", None) or not hasattr(w, "meta"):
-            continue
+        if getattr(w, "crashed", None) or not hasattr(w, "meta") or getattr(w, "impl_only", False):
+            continue        # (impl-only: a corpus witness of behaviour the model has no vocabulary for; its oracle verdict is asserted)
         mi = model_input(w)
         inputs.append((w, mi))
         text += "".join(l + "\n" for _, l in mi)
@@ -1130,6 +1195,8 @@ def oracle_c11(pairs):
 def replay_world(path, wid=None):
     """execute a stored command trace (corpus / replay file) on the harness; result lines in the file are ignored"""
     w = World(wid or f"corpus:{os.path.basename(path)}")
+    w.impl_only = any(l.startswith("#!impl-only") for l in open(path))
+    w.expect = [l.split()[1] for l in open(path) if l.startswith("#!expect ")]      # signatures the oracle must report on this trace
     cmds = [l.strip() for l in open(path) if l.strip() and not l.startswith("#")]
     backends, retention, admins, members = [], 5, [0], None
     try:
